@@ -21,19 +21,9 @@ set_option maxRecDepth 4000
 namespace TinyVerif.Thread
 open TinyVerif.Gen.Thread
 
-def isAcq : Ord → Bool
-  | .acquire | .acqrel | .seqcst => true
-  | _ => false
-def isRel : Ord → Bool
-  | .release | .acqrel | .seqcst => true
-  | _ => false
-
-/-- all three flag CAS sites: operands (false, true), success ordering at least Acquire + Release -/
-def casOk (l : List Site) : Bool :=
-  l.any (fun s => s.op == "compare_exchange") &&
-  l.all (fun s => s.op != "compare_exchange" ||
-    (s.loc == "sync" && s.vals == ["false", "true"] && isAcq (s.ords.getD 0 .relaxed) && isRel (s.ords.getD 0 .relaxed)))
-
+/-- all three flag CAS sites (`casOk`, `goodCas` in Props/C05, tie T): a strong compare_exchange on the hand-over flag
+with operands (false, true) and a success ordering that is at least Acquire and at least Release — stated with
+`isAcq` / `isRel`, so a stronger ordering (or any failure ordering) in the source is accepted -/
 theorem gen_cas_orderings : (casOk dropSites && casOk spawnSites && casOk panicSites) = true := by decide
 
 /-! ## release_exactly_once -/
